@@ -286,8 +286,8 @@ int main( int argc, char** argv )
             if ( !feasible ) continue;
             int tier = ( n++ % 2 ) == 0 ? 0 : 1;
             std::string id = "typed-cap" + std::to_string( cap ) + "-pre" + std::to_string( prefill ) + "/" + tops( p ) + "|" + tops( c );
-            if ( cap == 3 ) add( id, [=] { return std::unique_ptr<Run>( new TypedRun<false>( cap, p, c, prefill )); }, tier, 4, 8 );
-            else add( id, [=] { return std::unique_ptr<Run>( new TypedRun<true>( cap, p, c, prefill )); }, tier, 4, 8 );
+            if ( cap == 3 ) add( id, [=] { return std::unique_ptr<Run>( new TypedRun<false>( cap, p, c, prefill )); }, tier, 4, 6 );
+            else add( id, [=] { return std::unique_ptr<Run>( new TypedRun<true>( cap, p, c, prefill )); }, tier, 4, 6 );
         }
     }
     // WeakRingBuffer<void>: capacities 32, 64 (power of two) and 40, 48 (not); sizes within the asserted contract real_size < capacity
@@ -304,8 +304,8 @@ int main( int argc, char** argv )
                     for ( int v : s ) id += std::to_string( v ) + ",";
                     int consumes = int( s.size());
                     bool exp2 = cap == 32 || cap == 64;
-                    if ( exp2 ) add( id, [=] { return std::unique_ptr<Run>( new VoidRun<true>( cap, s, consumes, skew )); }, tier, 3, 5 );
-                    else add( id, [=] { return std::unique_ptr<Run>( new VoidRun<false>( cap, s, consumes, skew )); }, tier, 3, 5 );
+                    if ( exp2 ) add( id, [=] { return std::unique_ptr<Run>( new VoidRun<true>( cap, s, consumes, skew )); }, tier, 3, 4 );
+                    else add( id, [=] { return std::unique_ptr<Run>( new VoidRun<false>( cap, s, consumes, skew )); }, tier, 3, 4 );
                 }
             }
         }
